@@ -294,6 +294,18 @@ func vhC10Refuse() {
 	case "concat-mismatch":
 		b, _ := vMkOperand[float64]("b", []int{3, 2}, "C")
 		pan = vCatch(func() { _, err = a.Concat(0, b) })
+	case "concat-mismatch-unit": // an operand that is shorter (length one) off the join axis
+		b, _ := vMkOperand[float64]("b", []int{1, 3}, "C")
+		pan = vCatch(func() { _, err = a.Concat(1, b) })
+	case "concat-mismatch-longer":
+		b, _ := vMkOperand[float64]("b", []int{3, 3}, "C")
+		pan = vCatch(func() { _, err = a.Concat(1, b) })
+	case "hstack-mismatch-unit":
+		b, _ := vMkOperand[float64]("b", []int{1, 3}, "C")
+		pan = vCatch(func() { _, err = a.Hstack(b) })
+	case "vstack-mismatch-unit":
+		b, _ := vMkOperand[float64]("b", []int{2, 1}, "C")
+		pan = vCatch(func() { _, err = a.Vstack(b) })
 	case "concat-rank":
 		b, _ := vMkOperand[float64]("b", []int{3}, "C")
 		pan = vCatch(func() { _, err = a.Concat(1, b) })
